@@ -29,7 +29,11 @@ pub fn gen(r: &mut Rng, cases: usize, size: usize, out: &mut Out) {
             }
         };
         let trip = |r: &mut Rng, out: &mut Out| {
-            out.line(if r.bool() { "pjson" } else { "prebuild" });
+            out.line(match r.below(5) {
+                0 | 1 => "pjson",
+                2 | 3 => "prebuild",
+                _ => "prebuildstream",
+            });
         };
         // a fresh object is a point of its life too
         if r.chance(1, 6) {
@@ -154,6 +158,15 @@ fn trip_json(a: &Adf) -> Adf {
 /// what `server/src/adf.rs` does: `Adf -> SimplifiedAdf` (every number a decimal string), stored
 /// (here: through `serde_json`, the server uses BSON), `SimplifiedAdf -> Adf`
 fn trip_rebuild(a: &Adf) -> Adf {
+    trip_rebuild_from(a, 0)
+}
+
+/// the node list as a channel (`Bdd::with_sender`) delivers it: without the two constants
+fn trip_rebuild_stream(a: &Adf) -> Adf {
+    trip_rebuild_from(a, 2)
+}
+
+fn trip_rebuild_from(a: &Adf, skip: usize) -> Adf {
     type Dto = (Vec<String>, HashMap<String, String>, Vec<(String, String, String)>, Vec<String>);
     let dto: Dto = (
         a.ordering.names().read().unwrap().clone(),
@@ -161,6 +174,7 @@ fn trip_rebuild(a: &Adf) -> Adf {
         a.bdd
             .nodes
             .iter()
+            .skip(skip)
             .map(|n| (n.var().0.to_string(), n.lo().0.to_string(), n.hi().0.to_string()))
             .collect(),
         a.ac.iter().map(|t| t.0.to_string()).collect(),
@@ -276,7 +290,7 @@ impl Exec {
                 true
             }
             "pmemocheck" => true, // regenerated by the round trips and `pfinish`
-            "pop" | "pac" | "psem" | "pq" | "pjson" | "prebuild" | "pfinish" => {
+            "pop" | "pac" | "psem" | "pq" | "pjson" | "prebuild" | "prebuildstream" | "pfinish" => {
                 out.line(l);
                 out.flush();
                 let Some(o) = self.o.as_mut() else {
@@ -380,9 +394,12 @@ impl Exec {
                             }
                         }
                     }
-                    "pjson" | "prebuild" => {
-                        let json = ws[0] == "pjson";
-                        let r = catch_unwind(AssertUnwindSafe(|| if json { trip_json(&o.adf) } else { trip_rebuild(&o.adf) }));
+                    "pjson" | "prebuild" | "prebuildstream" => {
+                        let r = catch_unwind(AssertUnwindSafe(|| match ws[0] {
+                            "pjson" => trip_json(&o.adf),
+                            "prebuild" => trip_rebuild(&o.adf),
+                            _ => trip_rebuild_stream(&o.adf),
+                        }));
                         match r {
                             Ok(new) => {
                                 out.line(&format!(
